@@ -1148,6 +1148,8 @@ func TestVerifC03(t *testing.T) {
 		if cs > 100 {
 			sizes = []int{0, 1, 300, cs}
 		}
+		// values longer than ONE reply of this msize can carry (msize-11 bytes of Rread payload), whatever the chunk size is
+		sizes = append(sizes, int(msize)-10, 2*int(msize)+3)
 		for _, size := range sizes {
 			if size < 0 {
 				continue
